@@ -120,8 +120,9 @@ def check(run):
         fw = [c for c in f.calls() if q.callee_name(c) == 'sim::forward_packet' or (c.get('callee') or '').endswith('sink::incoming_packet')]
         once = len(fw) == 1 and not (f.cfg.node_block(fw[0]) in f.cfg.reach_from(f.cfg.node_block(fw[0])))
         if detach:
-            rets = [r for r in q.returns(f) if any(detach in q.render(f, a) for a, p in q.guards_at(f, r))]
-            allp = q.on_all_paths(f, fw + rets)
+            # while attached (m_dst non-null) every path forwards; branches on m_dst are followed along that edge only
+            attached = lambda atom: {detach: True, '(%s != nullptr)' % detach: True, '(%s == nullptr)' % detach: False, '(nullptr != %s)' % detach: True, '(nullptr == %s)' % detach: False}.get(q.render(f, q.strip_casts(atom)))
+            allp = not q.exit_reachable_under(f, None, fw, attached)
         else:
             allp = q.on_all_paths(f, fw)
         run.check(once and allp, 'R4', 'forward-once', name, f.loc(), 'the hop does not pass the packet on exactly once on every path' + (' (other than the detached case)' if detach else ''), 'forwards exactly once' + (' or drops when detached' if detach else ''))
